@@ -26,6 +26,7 @@ func init() {
 	common.Register(&common.CurveOps{Name: CurveName, Cmds: map[string]func(common.Args, *common.Out) error{
 		"g16replay":   g16Replay,
 		"plonkreplay": plonkReplay,
+		"framing":     framingCmd,
 	}})
 }
 
